@@ -3,5 +3,6 @@ package engines
 
 import (
 	_ "verif/engines/coordpure"
+	_ "verif/engines/kvmodel"
 	_ "verif/engines/walmodel"
 )
